@@ -7,7 +7,8 @@
 (* record is the global view after a BMCA round. Once the network has been *)
 (* quiet for K rounds the tree predicate of module Tree must hold on every *)
 (* logged state and the port states must not change from one logged state  *)
-(* to the next (no flapping).                                              *)
+(* to the next (no flapping). With Sync / Delay traffic switched on, every  *)
+(* measurement a recording filter receives is logged and must be exact.    *)
 (***************************************************************************)
 EXTENDS Tree, Json, IOUtils, TLC
 
@@ -27,9 +28,17 @@ VARIABLES l, prev
 tvars == <<l, prev>>
 TInit == l = 2 /\ prev = <<>>
 IsState(r) == r.e = "state"
+\* Sync / Delay traffic between the real instances (netsim cfg "sync"): node n's clock is off by Cfg.theta[n] ns, segment i has the
+\* symmetric delay Cfg.dseg[i] ns. A measurement reaches a filter only on a slave port, and what the real master and the real
+\* slave code make of the exchanged frames is exactly offset = theta(slave) - theta(parent), delay = the segment's delay.
+MeasOK(r) == /\ r.pst = "S"
+             /\ r.parent[1] \in 1..NN /\ r.parent[1] # r.n
+             /\ (r.has_off => (r.off_exact /\ r.off = Cfg.theta[r.n] - Cfg.theta[r.parent[1]]))
+             /\ (r.has_dly => (r.dly_exact /\ r.dly = Cfg.dseg[r.seg]))
 TStep == /\ l <= Len(Rec)
          /\ LET r == Rec[l] IN
-            IF IsState(r) THEN
+            IF r.e = "meas" THEN MeasOK(r) /\ prev' = prev
+            ELSE IF IsState(r) THEN
                /\ (r.quiet >= KQ => TreeOKOf(G(r), Cfg.prio, NN, AllP))
                /\ ((r.quiet > KQ /\ prev # <<>>) => r.pst = prev)           \* the steady state does not flap
                /\ prev' = r.pst
